@@ -284,17 +284,23 @@ def rule_any_order(ctx, fx, config):
     for nbk in N:
         t = f.blocks[nbk]["term"]
         e = switch_edges(f, t["t"]) if t["t"] is not None else None
-        # the null edge proper: null-like text *and* not tagged `!!str`
-        if e:
+        # the null edge proper: null-like text *and* not tagged `!!str` / `!!binary` (a chain of tag exclusions)
+        for _round in range(4):
+            if not e:
+                break
+            nxt = None
             for cb, ct in f.calls():
                 if cb in f.reachable([e[0]]) and last_seg(fx.callee(ct)) in ("ne", "eq"):
                     with f.deep():
                         args = " ".join(render(f.sym_operand(a)) for a in ct["args"])
-                    if "SfTag::String" in args and f.dominates(nbk, cb) and not any(x in f.reachable([e[0]], avoid=[cb]) for x in visits("visit_unit")):
+                    if ("SfTag::String" in args or "SfTag::Binary" in args) and f.dominates(nbk, cb) and not any(x in f.reachable([e[0]], avoid=[cb]) for x in visits("visit_unit")):
                         e2 = switch_edges(f, ct["t"]) if ct["t"] is not None else None
                         if e2:
-                            e = (e2[0] if last_seg(fx.callee(ct)) == "ne" else e2[1], e[1])
+                            nxt = (e2[0] if last_seg(fx.callee(ct)) == "ne" else e2[1], e[1])
                             break
+            if nxt is None or nxt == e:
+                break
+            e = nxt
         vu = visits("visit_unit", "visit_none")
         okn = bool(e) and bool(f.reachable([e[0]]) & set(vu)) and not (f.reachable([e[0]]) & set(vb + vi + vf + vs + visits('visit_string', 'visit_str', 'visit_borrowed_str')))
         ctx.check(okn, "ORDER", "C06:ORDER:any:null-yields-unit", "a null-like plain scalar yields unit", "the null-like edge of deserialize_any does not end in visit_unit", config, ctx.where(f, nbk))
@@ -322,6 +328,23 @@ def rule_str_tag_not_null(ctx, fx, config):
                             vu = [x for x, xt in f.calls() if str(xt["f"].get("trait")) == "serde::de::Visitor" and xt["f"].get("name") in ("visit_unit", "visit_none")]
                             found = found or not any(x in f.reachable([e[0]], avoid=[cb]) for x in vu)
             ok_all = ok_all and found
+        if nm != "deserialize_unit":
+            okb = bool(calls)
+            for b, t in calls:
+                e = switch_edges(f, t["t"]) if t["t"] is not None else None
+                foundb = False
+                if e:
+                    region = f.reachable([e[0]])
+                    vu = [x for x, xt in f.calls() if str(xt["f"].get("trait")) == "serde::de::Visitor" and xt["f"].get("name") in ("visit_unit", "visit_none")]
+                    for cb, ct in f.calls():
+                        if cb in region and last_seg(fx.callee(ct)) in ("ne", "eq"):
+                            with f.deep():
+                                args = " ".join(render(f.sym_operand(a)) for a in ct["args"])
+                            if "SfTag::Binary" in args:
+                                foundb = foundb or not any(x in f.reachable([e[0]], avoid=[cb]) for x in vu)
+                okb = okb and foundb
+            ctx.check(okb, "STYLE", "C06:STYLE:binary-tag-not-null:%s" % nm, "a null-like text tagged `!!binary` is not answered with null",
+                      "%s answers null for a `!!binary` scalar whose base64 text is null-like (`!!binary null` is the bytes 9e e9 65; an empty byte array is `!!binary` with no text)" % nm, config, ctx.where(f))
         ctx.check(ok_all, "STYLE", "C06:STYLE:str-tag-not-null:%s" % nm, "a null-like text tagged `!!str` is not answered with null", "%s answers null for a null-like scalar without looking at a `!!str` tag: `!!str null` reads as None / unit / Null while a String target reads \"null\"" % nm, config, ctx.where(f))
 
 
